@@ -63,8 +63,8 @@ def xs(rng, n, pat=None):
         x = np.cumsum(rng.uniform(0.05, 3.0, n)) * 10.0 ** -int(rng.integers(9, 12))
         return x, 7
     if pat == 6:
-        # large origin, small increments (time stamps, byte offsets): relative x span 1e-5 .. 1e-11
-        off = float(int(10.0 ** rng.uniform(6, 12)))
+        # large origin, small increments (time stamps, byte offsets, monotonic ticks): relative x span 1e-5 .. 1e-14
+        off = float(int(10.0 ** rng.uniform(6, 15)))
         return off + np.cumsum(rng.integers(1, 5, n)).astype(float), 6
     if pat == 5:
         # small units (seconds, GiB fractions): gaps of 1e-3 .. 1e-7
@@ -212,6 +212,9 @@ def long_spiky(rng, nlo=4200, nhi=9000):
     few spikes 1..5 samples wide and a step, away from the apex of the smooth trend.  Any search that looks at a
     subsample of a long range, or stops early, misses them."""
     n = int(rng.integers(nlo, nhi + 1))
+    if rng.random() < 0.5:
+        # sizes at block boundaries (multiples of 256 and powers of two, +-1): where blocked / two-level code changes path
+        n = min(max(256 * int(round(n / 256.0)) + int(rng.integers(-1, 2)), nlo), nhi + 1)
     x = np.arange(n, dtype=float) + float(rng.integers(0, 3))
     if rng.random() < 0.3:
         x = np.cumsum(rng.integers(1, 4, n)).astype(float)
